@@ -227,9 +227,10 @@ class Seams:
             rb.set(_core, "_EXTERNAL_TENSOR_COPY_CHUNK_SIZE", chunk)
         p = sim.get("preempt_p", 0.0)
         pts = sim.get("preempt_points")
-        if self.sched is not None and (p or pts):
+        fp = sim.get("preempt_first", 0.0)
+        if self.sched is not None and (p or pts or fp):
             preempt.register([_ed])
-            preempt.enable(self.sched, p=p, rng=self.streams.rng("preempt"), points=pts)
+            preempt.enable(self.sched, p=p, rng=self.streams.rng("preempt"), points=pts, first_p=fp)
             self._pre = True
         else:
             self._pre = False
